@@ -485,6 +485,10 @@ func (d *indexData) newBtreeIndex(ngramSec simpleSection, postings compoundSecti
 		return btreeIndex{}, err
 	}
 
+	if len(textContent)%ngramEncoding != 0 {
+		return btreeIndex{}, fmt.Errorf("barf: ngram section size %% %d != 0: sz %d", ngramEncoding, len(textContent))
+	}
+
 	// For 500k trigams we can expect approx 1000 leaf nodes (500k divided by
 	// half the bucketSize) and 20 nodes on level 2 (all but the rightmost
 	// inner nodes will have exactly v=50 children) plus a root node.
